@@ -6,3 +6,7 @@ import Peppi.Props.C06
 #print axioms Peppi.Props.C06.readArrowFrames_noPanic
 #print axioms Peppi.Props.C06.run_shrinks
 #print axioms Peppi.Props.C06.run_readProg
+#print axioms Peppi.Props.C06.parseStart_safe
+#print axioms Peppi.Props.C06.parseEvent_safe
+#print axioms Peppi.Props.C06.parseMetadata_noPanic
+#print axioms Peppi.Props.C06.readMap_noPanic
